@@ -57,14 +57,14 @@ Lemma find_update s k v k' :
 Proof.
   induction s as [|x t IH]; cbn [es_find map].
   - destruct (k' =? k); reflexivity.
-  - destruct (N.eqb_spec (e_key x) k) as [E|E]; cbn [e_key].
-    + destruct (N.eqb_spec k' k) as [F|F].
-      * subst. rewrite N.eqb_refl. reflexivity.
-      * replace (k =? k') with false by lia. rewrite IH. replace (k' =? k) with false by lia.
-        replace (e_key x =? k') with false by lia. reflexivity.
-    + destruct (N.eqb_spec k' k) as [F|F].
-      * subst k'. replace (e_key x =? k) with false by lia. rewrite IH, N.eqb_refl. reflexivity.
-      * destruct (e_key x =? k'); [reflexivity|]. rewrite IH. replace (k' =? k) with false by lia. reflexivity.
+  - destruct (N.eqb_spec (e_key x) k) as [E|E].
+    + cbn [e_key]. destruct (N.eqb_spec k k') as [F|F].
+      * subst k'. rewrite N.eqb_refl. reflexivity.
+      * rewrite IH. destruct (N.eqb_spec k' k) as [G|G]; [congruence|].
+        destruct (N.eqb_spec (e_key x) k') as [H|H]; [congruence|reflexivity].
+    + destruct (N.eqb_spec (e_key x) k') as [H|H].
+      * destruct (N.eqb_spec k' k) as [G|G]; [congruence|reflexivity].
+      * rewrite IH. reflexivity.
 Qed.
 
 Lemma keys_update s k v :
@@ -79,6 +79,16 @@ Proof.
   intros [Hn Ht]. split; [rewrite keys_update; exact Hn|].
   apply Forall_forall. intros e He. apply in_map_iff in He. destruct He as (x & <- & Hx).
   destruct (e_key x =? k); [reflexivity|]. rewrite Forall_forall in Ht. exact (Ht x Hx).
+Qed.
+
+Lemma NoDup_app_snoc (l : list N) (x : N) : NoDup l -> ~ In x l -> NoDup (l ++ [x]).
+Proof.
+  induction l as [|y t IH]; intros Hn Hx; cbn [app].
+  - constructor; [intros []|constructor].
+  - inversion Hn as [|? ? Hy Hn']; subst. constructor.
+    + intros H. apply in_app_or in H. destruct H as [H|[H|[]]]; [contradiction|].
+      subst. apply Hx. left. reflexivity.
+    + apply IH; [exact Hn'|]. intros H. apply Hx. right. exact H.
 Qed.
 
 Lemma wf_snoc s k v : wf s -> es_find s k = None -> wf (s ++ [Entry k k v]).
@@ -119,24 +129,32 @@ Qed.
 
 Definition same (m1 m2 : amap) : Prop := forall k, m1 k = m2 k.
 
+Lemma abs_spec s k : wf s ->
+  abs s k = match es_find s k with Some e => Some (e_val e) | None => None end.
+Proof. apply get_spec. Qed.
+
+Lemma tag_ok s k e : wf s -> es_find s k = Some e -> e_tag e =? k = true.
+Proof.
+  intros [_ Ht] E. destruct (find_some _ _ _ E) as [Hin Hk]. rewrite Forall_forall in Ht.
+  rewrite (Ht e Hin), Hk. apply N.eqb_refl.
+Qed.
+
 Theorem insert_refines s k v : wf s ->
   exists s', es_insert s k v = inr (s', abs s k) /\ wf s' /\ same (abs s') (a_insert (abs s) k v).
 Proof.
-  intros W. unfold es_insert, abs. rewrite (get_spec s k W).
+  intros W. unfold es_insert. rewrite (abs_spec s k W).
   destruct (es_find s k) as [e|] eqn:E.
-  - destruct (find_some _ _ _ E) as [Hin Hk]. destruct W as [Hn Ht]. rewrite Forall_forall in Ht.
-    rewrite (Ht e Hin), Hk, N.eqb_refl.
-    eexists. split; [reflexivity|]. split; [apply wf_update; split; [assumption|apply Forall_forall; assumption]|].
-    intros k'. rewrite (get_spec _ k') by (apply wf_update; split; [assumption|apply Forall_forall; assumption]).
-    rewrite find_update, E. unfold a_insert.
-    rewrite (get_spec s k') by (split; [assumption|apply Forall_forall; assumption]).
-    destruct (k' =? k); reflexivity.
+  - rewrite (tag_ok _ _ _ W E).
+    eexists. split; [reflexivity|]. split; [apply wf_update; exact W|].
+    intros k'. unfold a_insert. rewrite (abs_spec _ k') by (apply wf_update; exact W).
+    rewrite find_update, E, (abs_spec s k' W). destruct (k' =? k); reflexivity.
   - eexists. split; [reflexivity|]. split; [apply wf_snoc; assumption|].
-    intros k'. rewrite (get_spec _ k') by (apply wf_snoc; assumption).
-    rewrite find_app. cbn [es_find e_key]. unfold a_insert. rewrite (get_spec s k' W).
+    intros k'. unfold a_insert. rewrite (abs_spec _ k') by (apply wf_snoc; assumption).
+    rewrite find_app, (abs_spec s k' W). cbn [es_find e_key].
     destruct (N.eqb_spec k' k) as [F|F].
     + subst. rewrite E, N.eqb_refl. reflexivity.
-    + destruct (es_find s k'); [reflexivity|]. replace (k =? k') with false by lia. reflexivity.
+    + destruct (es_find s k'); [reflexivity|].
+      destruct (N.eqb_spec k k'); [congruence|reflexivity].
 Qed.
 
 Theorem get_or_insert_refines s k v : wf s ->
@@ -145,16 +163,16 @@ Theorem get_or_insert_refines s k v : wf s ->
   | None => exists s', es_get_or_insert s k v = inr (s', v) /\ wf s' /\ same (abs s') (a_insert (abs s) k v)
   end.
 Proof.
-  intros W. unfold es_get_or_insert, abs. rewrite (get_spec s k W).
+  intros W. unfold es_get_or_insert. rewrite (abs_spec s k W).
   destruct (es_find s k) as [e|] eqn:E.
-  - destruct (find_some _ _ _ E) as [Hin Hk]. destruct W as [Hn Ht]. rewrite Forall_forall in Ht.
-    rewrite (Ht e Hin), Hk, N.eqb_refl. reflexivity.
+  - rewrite (tag_ok _ _ _ W E). reflexivity.
   - eexists. split; [reflexivity|]. split; [apply wf_snoc; assumption|].
-    intros k'. rewrite (get_spec _ k') by (apply wf_snoc; assumption).
-    rewrite find_app. cbn [es_find e_key]. unfold a_insert. rewrite (get_spec s k' W).
+    intros k'. unfold a_insert. rewrite (abs_spec _ k') by (apply wf_snoc; assumption).
+    rewrite find_app, (abs_spec s k' W). cbn [es_find e_key].
     destruct (N.eqb_spec k' k) as [F|F].
     + subst. rewrite E, N.eqb_refl. reflexivity.
-    + destruct (es_find s k'); [reflexivity|]. replace (k =? k') with false by lia. reflexivity.
+    + destruct (es_find s k'); [reflexivity|].
+      destruct (N.eqb_spec k k'); [congruence|reflexivity].
 Qed.
 
 Theorem set_refines s k v : wf s ->
@@ -162,10 +180,11 @@ Theorem set_refines s k v : wf s ->
   old = abs s k /\ wf s' /\
   same (abs s') (match abs s k with Some _ => a_insert (abs s) k v | None => abs s end).
 Proof.
-  intros W. unfold es_set. fold (abs s k). destruct (abs s k) as [x|] eqn:A.
+  intros W. unfold es_set. change (es_get s k) with (abs s k).
+  destruct (abs s k) as [x|] eqn:A.
   - split; [reflexivity|]. split; [apply wf_update; exact W|].
-    intros k'. unfold abs in *. rewrite (get_spec _ k') by (apply wf_update; exact W).
-    rewrite find_update. rewrite (get_spec s k W) in A. rewrite (get_spec s k' W). unfold a_insert.
+    intros k'. unfold a_insert. rewrite (abs_spec _ k') by (apply wf_update; exact W).
+    rewrite find_update, (abs_spec s k' W). rewrite (abs_spec s k W) in A.
     destruct (es_find s k); [|discriminate]. destruct (k' =? k); reflexivity.
   - split; [reflexivity|]. split; [exact W|]. intros k'. reflexivity.
 Qed.
@@ -173,15 +192,14 @@ Qed.
 Theorem remove_refines s k : wf s ->
   exists s', es_remove s k = inr (s', abs s k) /\ wf s' /\ same (abs s') (a_remove (abs s) k).
 Proof.
-  intros W. unfold es_remove, abs. rewrite (get_spec s k W).
+  intros W. unfold es_remove. rewrite (abs_spec s k W).
   destruct (es_find s k) as [e|] eqn:E.
-  - destruct (find_some _ _ _ E) as [Hin Hk]. pose proof W as [Hn Ht]. rewrite Forall_forall in Ht.
-    rewrite (Ht e Hin), Hk, N.eqb_refl.
+  - rewrite (tag_ok _ _ _ W E).
     eexists. split; [reflexivity|]. split; [apply wf_drop; exact W|].
-    intros k'. rewrite (get_spec _ k') by (apply wf_drop; exact W).
-    rewrite find_drop. unfold a_remove. rewrite (get_spec s k' W). destruct (k' =? k); reflexivity.
+    intros k'. unfold a_remove. rewrite (abs_spec _ k') by (apply wf_drop; exact W).
+    rewrite find_drop, (abs_spec s k' W). destruct (k' =? k); reflexivity.
   - eexists. split; [reflexivity|]. split; [exact W|].
-    intros k'. unfold a_remove. rewrite (get_spec s k' W).
+    intros k'. unfold a_remove. rewrite (abs_spec s k' W).
     destruct (N.eqb_spec k' k) as [F|F]; [subst; rewrite E|]; reflexivity.
 Qed.
 
@@ -191,7 +209,7 @@ Proof. split; [apply wf_new|intros k; reflexivity]. Qed.
 Theorem contains_refines s k : wf s ->
   es_contains s k = match abs s k with Some _ => true | None => false end.
 Proof.
-  intros W. unfold es_contains, abs. rewrite (get_spec s k W). destruct (es_find s k); reflexivity.
+  intros W. unfold es_contains. rewrite (abs_spec s k W). destruct (es_find s k); reflexivity.
 Qed.
 
 (* len = number of types that hold a value: the key list is duplicate free and lists exactly them *)
@@ -200,7 +218,7 @@ Theorem len_refines s : wf s ->
   forall k, In k (map e_key s) <-> abs s k <> None.
 Proof.
   intros W. split; [reflexivity|]. split; [exact (proj1 W)|].
-  intros k. unfold abs. rewrite (get_spec s k W). split.
+  intros k. rewrite (abs_spec s k W). split.
   - intros H. destruct (find_in _ _ H) as [e ->]. discriminate.
   - intros H. destruct (es_find s k) as [e|] eqn:E; [|contradiction].
     destruct (find_some _ _ _ E) as [Hin <-]. apply in_map. exact Hin.
